@@ -26,7 +26,7 @@ T=$(cd $S && PYTHONPATH=$S/src timeout 1500 /venv/bin/python -m pytest -q -p no:
 fi
 RES=""
 for C in $CHECKS; do
-  R=$(cd /verif && VERIF_REPO_ROOT=$S PYVC_FN_BUDGET=400 timeout 1500 python3-vt -m pyvc.run $C --norecord 2>&1 | grep -v WARNING | grep "^$C:\|^VIOLATION\|^UNVERIFIABLE" | head -8 | tr '\n' '|' | cut -c1-900)
+  R=$(cd ${VERIF_DIR:-/verif} && VERIF_REPO_ROOT=$S PYVC_FN_BUDGET=400 timeout 1500 python3-vt -m pyvc.run $C --norecord 2>&1 | grep -v WARNING | grep "^$C:\|^VIOLATION\|^UNVERIFIABLE" | head -8 | tr '\n' '|' | cut -c1-900)
   RES="$RES $R"
 done
 python3 - "$ID" "$P" "$D0" "$D1" "$T" "$RES" "$CHECKS" "$PORTED" <<'PY'
